@@ -1019,11 +1019,16 @@ def relate(from_instance, to_instance, rel_id, phrase=''):
         return False
 
     inst1, inst2, ass = _find_link(from_instance, to_instance, rel_id, phrase)
-    if not ass.source_link.connect(inst1, inst2):
-        raise RelateException(from_instance, to_instance, rel_id, phrase)
+    
+    # make sure both directions accept the connection before changing either of them
+    for link, inst, other in ((ass.source_link, inst1, inst2),
+                              (ass.target_link, inst2, inst1)):
+        partners = link.navigate(inst)
+        if partners and not link.many and other not in partners:
+            raise RelateException(from_instance, to_instance, rel_id, phrase)
 
-    if not ass.target_link.connect(inst2, inst1):
-        raise RelateException(from_instance, to_instance, rel_id, phrase)
+    ass.source_link.connect(inst1, inst2)
+    ass.target_link.connect(inst2, inst1)
     
     return True
 
